@@ -170,7 +170,7 @@ func (x *Exec) applyContract(st *State, i *ssa.Call, fi *FuncInfo, fs *FuncSpec,
 	x.havocHeaps(st, old, eff)
 	x.wfObjects(st, eff)
 	for a := range eff.cells {
-		ty := tyFromGo(a.Type().(*types.Pointer).Elem())
+		ty := tyFromGo(cellElemType(a))
 		v, facts := x.freshValue(ty, a.Comment, st)
 		st.cells[a] = v
 		for _, f := range facts {
